@@ -173,21 +173,28 @@ CLAIMED = {
         note=TB + 'Closed under the global context. RDKit front end (SMILES, kekulisation, ring perception) external; prepared graph computed by the harness.',
         technique='Coq finite theorems on regenerated schemes + structural lemmas + vm_compute correspondence of the scheme interpreter'),
     'C03': dict(
-        text='PARTIAL. Machine-checked (Coq): the order-dependence of the Benson aromatisation on fused alternating rings as a refutation witness '
-             '(known finding), its independence of start atom/direction for a single ring (finite), set-based descriptor counting. The invariance '
-             'itself is decided on the implementation on every run: all atom permutations for <=6 heavy atoms, random renumberings and random SMILES, '
-             'Kekule form, explicit hydrogens, molecule object - identical descriptors or identical failure.',
+        text='Machine-checked proof (Coq), matcher level: for every fragment the reader accepts without a molecule prefix and every well-formed '
+             'molecule graph, renumbering the atoms by any permutation renumbers the matches and nothing else - Permutation (matches f (rename m)) '
+             '(map (map phi) (matches f m)) - proved through a general component-embedding theorem (atoms, bonds, neighbourhoods, ring membership, '
+             'ring counts, stereo atoms are carried along). Plus: the order-dependence of the Benson aromatisation on fused alternating rings as a '
+             'refutation witness (known finding), its independence of start atom/direction for a single ring (finite), set-based descriptor '
+             'counting. PARTIAL: the lift from matches to the descriptor dictionary and RDKit producing isomorphic prepared graphs for equivalent '
+             'spellings are decided on the implementation on every run: all atom permutations for <=6 heavy atoms, random renumberings and random '
+             'SMILES, Kekule form, explicit hydrogens, molecule object - identical descriptors or identical failure.',
         design='5 / C03',
-        note=TB + 'Closed under the global context. descriptors_perm_invariant (DESIGN) is not yet a theorem; RDKit producing isomorphic prepared '
-             'graphs for equivalent spellings is external.',
-        technique='Coq refutation witness + spelling-invariance oracle on the implementation'),
+        note=TB + 'Closed under the global context. RDKit producing isomorphic prepared graphs for equivalent spellings is external.',
+        technique='Coq equivariance proof of the matcher under renumbering + refutation witness + spelling-invariance oracle on the implementation'),
     'C04': dict(
-        text='PARTIAL. Machine-checked (Coq): no shipped pattern has a molecule-level prefix (finite, regenerated), every declared bond of a match '
-             'lies inside the molecule graph (matcher soundness), descriptor totals add entry-wise. The additivity itself is decided on the '
-             'implementation on every run: stress pairs in both orders, random pairs, self-pairs and triples incl. undecomposable components.',
+        text='Machine-checked proof (Coq), matcher level: for every fragment the reader accepts without a molecule prefix (no shipped pattern has '
+             'one: finite theorem on the regenerated scheme files) and all well-formed component graphs, the matches of the pattern in the mixture '
+             '(disjoint union) are exactly the matches in the first component together with the shifted matches in the second, each once '
+             '(Permutation; match counts add) - a match never straddles components and is not influenced by the other component; reader-accepted '
+             'fragments are proved connected. Descriptor totals add entry-wise. PARTIAL: the lift from matches to the descriptor dictionary (centre '
+             'assignment, naming, remaps) is decided on the implementation on every run: stress pairs in both orders, random pairs, self-pairs and '
+             'triples incl. undecomposable components.',
         design='5 / C04',
-        note=TB + 'Closed under the global context. descriptors_union (DESIGN) is not yet a theorem.',
-        technique='Coq finite theorem + matcher soundness + mixture oracle on the implementation'),
+        note=TB + 'Closed under the global context.',
+        technique='Coq additivity proof of the matcher over disjoint unions + finite theorem on regenerated schemes + mixture oracle on the implementation'),
     'C14': dict(
         text='PARTIAL. Machine-checked (Coq): finite theorem over the nine scheme files regenerated from /repo on every run (every pattern readable by '
              'the Coq reader, remaps well-formed and chain-free); the data-directory cache never changes its answer once given, the override wins, '
